@@ -78,6 +78,7 @@ def run_decode(prog, nbytes, use_cache=True):
         events.extend(e for e in o.events if not any(e is x for x in events))
         if o.status != "returned" and o.status != "run":
             alts.append((base, Opaque.make("abnormal", status=o.status)))
+    alts = [_hoist_alt(a) for a in alts]
     r = DecodeRun(nbytes, alts, [_strip_event(e) for e in events], ip.obligations, ip.unsummarised, ip.steps, time.time() - t0,
                   sorted(ip.visited_fns))
     _MEM[key] = r
@@ -89,6 +90,43 @@ def run_decode(prog, nbytes, use_cache=True):
         except Exception:
             pass
     return r
+
+
+def hoist(v):
+    """replace single-alternative choices by their value, returning the facts they carried"""
+    if isinstance(v, Choice):
+        if len(v.alts) == 1:
+            d, x = v.alts[0]
+            f2, x2 = hoist(x)
+            return tuple(d) + f2, x2
+        alts = []
+        for d, x in v.alts:
+            f2, x2 = hoist(x)
+            alts.append((tuple(d) + f2, x2))
+        return (), Choice(alts)
+    if isinstance(v, AdtVal):
+        facts_ = ()
+        fs = []
+        for f in v.fields:
+            ff, x = hoist(f)
+            facts_ += ff
+            fs.append(x)
+        return facts_, AdtVal(v.path, v.variant, fs, v.kind, v.vname)
+    if isinstance(v, TupleVal):
+        facts_ = ()
+        fs = []
+        for f in v.fields:
+            ff, x = hoist(f)
+            facts_ += ff
+            fs.append(x)
+        return facts_, TupleVal(fs)
+    return (), v
+
+
+def _hoist_alt(a):
+    fcts, v = a
+    f2, v2 = hoist(v)
+    return (tuple(fcts) + f2, v2)
 
 
 def _strip_event(e):
@@ -113,8 +151,15 @@ def id_values(fcts, atoms):
     other atoms are ignored (treated as satisfiable)"""
     atoms = list(atoms)
     aset = set(atoms)
-    rel = [f for f in fcts if f[0] != "guard" and fact_atoms(f) and fact_atoms(f) <= aset]
+    rel = [f for f in fcts if f[0] not in ("guard", "or") and fact_atoms(f) and fact_atoms(f) <= aset]
     relg = [f for f in fcts if f[0] == "guard" and f[1].get("deps") and f[1]["deps"] <= aset]
+    for f in fcts:
+        if f[0] == "or":
+            # keep, per disjunct, only the facts over the requested atoms
+            conjs = []
+            for conj in f[1]:
+                conjs.append(tuple(g for g in conj if (g[0] == "or") or (facts_atoms([g]) and facts_atoms([g]) <= aset)))
+            rel.append(("or", tuple(conjs)))
     out = []
     n = len(atoms)
     for v in range(1 << n):
